@@ -897,6 +897,8 @@ def _is_value_or_conversion(e: ast.AST, val: str) -> bool:
     if val not in names:
         return False
     inside_to = {y.id for c in ast.walk(e) if isinstance(c, ast.Call) and isinstance(c.func, ast.Attribute) and c.func.attr in ("to", "type_as") for a in list(c.args) + [k.value for k in c.keywords] for y in ast.walk(a) if isinstance(y, ast.Name)}
+    # ... or of the dtype= / device= keywords of the conversion itself (torch.as_tensor(val, dtype=param.dtype, device=param.device))
+    inside_to |= {y.id for c in ast.walk(e) if isinstance(c, ast.Call) for k in c.keywords if k.arg in ("dtype", "device") for y in ast.walk(k.value) if isinstance(y, ast.Name)}
     if names - {val} - inside_to:
         return False
     # val must be the (first) argument of a conversion, not e.g. an index or an exponent
